@@ -224,6 +224,16 @@ func (p *printer) postfixBase(n *Node) string {
 	return "(" + p.sp() + p.expr(n) + ")" + p.sp()
 }
 
+// item prints a list element (array item, dict value, call argument). A colon-less multi-clause
+// conditional "c ? v, c ? v" is itself comma-separated: as a list element it would swallow a
+// following element that begins like a further clause, so it is parenthesised there.
+func (p *printer) item(n *Node) string {
+	if n.K == KMulti {
+		return "(" + p.sp() + p.expr(n) + ")" + p.sp()
+	}
+	return p.expr(n)
+}
+
 func (p *printer) expr(n *Node) string {
 	switch n.K {
 	case KInt:
@@ -262,7 +272,7 @@ func (p *printer) expr(n *Node) string {
 		}
 		parts := []string{}
 		for _, k := range n.Kids {
-			parts = append(parts, p.expr(k))
+			parts = append(parts, p.item(k))
 		}
 		out := "[" + p.sp()
 		for i, s := range parts {
@@ -284,10 +294,10 @@ func (p *printer) expr(n *Node) string {
 				out += "," + p.sp()
 			}
 			key := p.expr(n.Kids[i])
-			if n.Kids[i].K == KBool || n.Kids[i].K == KNull {
+			if n.Kids[i].K == KBool || n.Kids[i].K == KNull || n.Kids[i].K == KMulti {
 				key = "(" + key + ")" + p.sp() // true/false/null in key position would be identifiers
 			}
-			out += colonSafe(key+p.sp()) + ":" + p.sp() + p.expr(n.Kids[i+1]) + p.sp()
+			out += colonSafe(key+p.sp()) + ":" + p.sp() + p.item(n.Kids[i+1]) + p.sp()
 		}
 		return out + "}" + p.sp()
 	case KIndex:
@@ -308,7 +318,7 @@ func (p *printer) expr(n *Node) string {
 			if i > 0 {
 				out += "," + p.sp()
 			}
-			out += p.expr(k)
+			out += p.item(k)
 			if i == 0 {
 				out += p.sp()
 			}
@@ -320,7 +330,7 @@ func (p *printer) expr(n *Node) string {
 			if i > 0 {
 				out += "," + p.sp()
 			}
-			out += p.expr(k)
+			out += p.item(k)
 			if i == 0 {
 				out += p.sp()
 			}
